@@ -7,6 +7,8 @@ tie:   generated histories (8 keys, capacities 1..6, TTLs, time advances, purge 
        the real purge task is observed on the store (whatever a task other than the harness's does to it at one
        instant, with no command in between, is one `purge` line with the content it left - memhist.py), and
        judged like any command: a key it removes must have been expired;
+       two histories in five mix in the rest of Memory's commands (set_lock, is_locked, unlock, set_add, set_remove,
+       set_pop, slice_incr, incr_bits, get_bits, get_raw, get_match, delete_match - Model/Lru.lean `XOp`);
        after EVERY command: result, the physically held keys in `OrderedDict` order, and the harness's own use
        log are compared with the model's answer, its store order and its ghost use log.
        Verdicts: the property oracle looks only at the two statements of C11 on the implementation's own
@@ -180,8 +182,11 @@ def run(chk: Check) -> int:
         maxlen = 40 if i % 3 else 14
         # purge task on: every other history is phase-locked to the purge ticks (see memhist.PHASE_ADVS)
         locked = bool(memhist.CONFIGS[cfg]["purge"]) and (i // (len(CFGS) * len(CAPS))) % 2 == 1
-        cases.append((f"gen:{i}", cfg, cap, memhist.gen_history(
-            chk.rng, NKEYS, maxlen, WEIGHTS, advs=memhist.PHASE_ADVS if locked else None,
+        # two histories in five mix the regular commands with the larger alphabet (lruhist.gen_xhistory): set_lock,
+        # is_locked, unlock, set_add, set_remove, set_pop, slice_incr, incr_bits, get_bits, get_raw, get_match, delete_match
+        gen = lruhist.gen_xhistory if i % 5 in (1, 3) else (lambda rng, ml, w, **kw: memhist.gen_history(rng, NKEYS, ml, w, **kw))
+        cases.append((f"gen:{i}", cfg, cap, gen(
+            chk.rng, maxlen, WEIGHTS, advs=memhist.PHASE_ADVS if locked else None,
             ttls=memhist.PHASE_TTLS if locked else None)))
     BATCH = 100
     stop = False
@@ -195,7 +200,7 @@ def run(chk: Check) -> int:
                 name = w[0] + ("_" + w[4] if w[0] == "set" else "")
                 hist[name] = hist.get(name, 0) + 1
             for k, v in rstats.items():
-                if "expired_unpurged" in k or "sweep" in k or k == "unattributed_store_change":
+                if "expired_unpurged" in k or "sweep" in k or "creates_entry_on_full_store" in k or k == "unattributed_store_change":
                     st.setdefault(k, v)
             for k, v in st.items():
                 interesting[k] = interesting.get(k, 0) + 1
@@ -242,7 +247,11 @@ def run(chk: Check) -> int:
                 + ",".join(CFGS) + " and capacities 1..6, compared after every command (result, store order, use log); "
                 "with the purge task on every other round of histories is phase-locked to the purge ticks (time advances are multiples "
                 "of the purge interval or idle yields), so that commands land at the instant of a tick on either side of the purge "
-                "task's step; "
+                "task's step; two histories in five mix the regular commands (keys 0..7) with the larger alphabet of Memory - "
+                "set_lock, is_locked, unlock (on the regular keys), set_add / set_remove / set_pop (2 set keys), slice_incr (2 window "
+                "keys), incr_bits / get_bits (2 bit keys), get_raw, get_match, delete_match, and exists / expire / delete / get_expire / "
+                "is_locked on any of the 14 keys - all sharing one store: every command that can create an entry is judged as a "
+                "write for the capacity clause, every read of a live entry as a use for the recency clause; "
                 "a case is non-trivial iff at least one capacity eviction happened in it; distinct = distinct (config, "
                 "capacity, op list); the enumerated histories are counted in `evaluations` and described under `exhaustive_part`",
         "samples": samples,
@@ -254,8 +263,11 @@ def run(chk: Check) -> int:
         "exhaustive": bool(exh) and not exh.get("failed", False),
         "exhaustive_part": exh,
         "trusted_base": TRUSTED,
-        "partial": "non-dyadic TTLs, more than 8 keys / 40 commands / capacity 6, set_raw, bit and set commands "
-                   "(they reach the same _get/_set) are not sampled; inside one set_many the oracle sees only the state after "
+        "partial": "non-dyadic TTLs, more than 14 keys / 40 commands / capacity 6 are not sampled; set_raw is not a program over "
+                   "_get/_set/_delete (it writes self.store directly, without trimming) and is outside the model and the histories; the "
+                   "payloads of the set / window / bit commands are not compared (C12, C15, C14 own them), their keys are never read by "
+                   "value-reading commands; get_match / delete_match only with the pattern '*'; the enumerated part uses the regular "
+                   "commands only; inside one set_many / get_match the oracle sees only the state after "
                    "the whole command; an expired entry pushed out by a write is not judged by the oracle (the theorems cover it)",
     })
     chk.assumptions.extend(TRUSTED)
